@@ -141,7 +141,13 @@ class Ctx:
         self.seed = seed
         self.level = level
         self.t0 = time.time()
-        self.work = os.path.join(WORK, pid)
+        # a private scratch directory per run: two overlapping runs of the same check must not share case files
+        os.makedirs(WORK, exist_ok=True)
+        for d in os.listdir(WORK):
+            m = re.match(r"^%s\.(\d+)$" % re.escape(pid), d)
+            if (m and not os.path.exists("/proc/%s" % m.group(1))) or d == pid:
+                shutil.rmtree(os.path.join(WORK, d), ignore_errors=True)
+        self.work = os.path.join(WORK, "%s.%d" % (pid, os.getpid()))
         shutil.rmtree(self.work, ignore_errors=True)
         os.makedirs(self.work, exist_ok=True)
         os.makedirs(EVID, exist_ok=True)
@@ -194,7 +200,7 @@ class Ctx:
         prefix = (ns.group(1) + ".") if ns else ""
         names = [prefix + n for n in names]
         self.cov["obligations"] = len(names)
-        self.cov["checker_cmd"] = "cd lean && lake build %s && lake env lean .work/%s/Audit.lean (#print axioms per theorem)" % (mod, self.pid)
+        self.cov["checker_cmd"] = "cd lean && lake build %s && lake env lean .work/%s.<pid>/Audit.lean (#print axioms per theorem)" % (mod, self.pid)
         drv = ["drv_" + f for f in families]
         rc, out = self.lake_build([mod] + list(extra_modules))
         if drv:
@@ -394,6 +400,8 @@ class Ctx:
         tmp = os.path.join(EVID, self.pid + ".json.tmp")
         json.dump(ev, open(tmp, "w"), indent=1, default=str)
         os.replace(tmp, os.path.join(EVID, self.pid + ".json"))
+        if not nviol and not out_lines:
+            shutil.rmtree(self.work, ignore_errors=True)   # nothing to diagnose: leave no scratch behind
         for l in out_lines:
             print(l, flush=True)
         print("[%s] done in %.1fs: %s" % (self.pid, time.time() - self.t0,
